@@ -82,6 +82,44 @@ def gen_case(rng, singular=False):
             return c
 
 
+EDGE_ALIAS = {"dirichlet": "value", "neumann": "derivative", "curvature": "curvature"}
+
+
+def edge_case(gd, conds):
+    """a hand-picked case in the format of `c02.gen_case` (scalar values): conds = {(axis, upper): (kind, value)}"""
+    axes = list(c02.AXES[gd["cls"]])
+    sides, spec = {}, {}
+    for ax in range(len(gd["shape"])):
+        if gd["periodic"][ax]:
+            for up in (False, True):
+                sides[(ax, up)] = {"kind": "periodic", "normal": False, "v": None, "c": None, "vshape": [], "alias": "periodic"}
+            spec[axes[ax]] = "periodic"
+            continue
+        for up in (False, True):
+            kind, val = conds[(ax, up)]
+            sides[(ax, up)] = {"kind": kind, "normal": False, "v": [Fraction(val)], "c": None, "vshape": [], "alias": EDGE_ALIAS[kind]}
+            spec[axes[ax] + ("+" if up else "-")] = {EDGE_ALIAS[kind]: float(val)}
+    return {"grid": gd, "rank": 0, "sides": sides, "spec": spec, "edge": True}
+
+
+def edge_cases():
+    """singular problems at the corners of the solver's code paths, present in every run (each was found by the random
+    generator first): vanishing matrix rows (curvature on a Cartesian axis), the zero matrix, pure Neumann on an
+    anisotropic grid, a singular matrix whose float image is regular, rank deficiency 2"""
+    def cart(shape, bounds, periodic=None):
+        return {"cls": "CartesianGrid", "shape": shape, "bounds": bounds, "periodic": periodic or [False] * len(shape)}
+    cu, ne, di = "curvature", "neumann", "dirichlet"
+    return [
+        edge_case(cart([2, 2], [[-2.75, -1.25], [0.0, 0.25]], [False, True]), {(0, False): (cu, -0.5), (0, True): (cu, -0.5)}),
+        edge_case({"cls": "UnitGrid", "shape": [4], "bounds": [[0.0, 4.0]], "periodic": [False]}, {(0, False): (cu, 0.5), (0, True): (cu, -1.0)}),
+        edge_case(cart([4, 3], [[0.0, 8.0], [0.0, 0.375]]), {(0, False): (ne, 0), (0, True): (ne, 0), (1, False): (ne, 0), (1, True): (ne, 0)}),
+        edge_case({"cls": "PolarSymGrid", "shape": [2], "bounds": [[2.25, 2.5]], "periodic": [False]}, {(0, False): (cu, 1.0), (0, True): (cu, -2.0)}),
+        edge_case(cart([2], [[0.0, 1.0]]), {(0, False): (cu, 1.0), (0, True): (cu, 1.0)}),
+        edge_case({"cls": "SphericalSymGrid", "shape": [3], "bounds": [[0.0, 1.5]], "periodic": [False]}, {(0, False): (ne, 0), (0, True): (ne, 0.5)}),
+        edge_case(cart([3, 2], [[0.0, 0.375], [3.0, 5.0]]), {(0, False): (cu, -0.25), (0, True): (cu, -0.25), (1, False): (di, 2.0), (1, True): (cu, -1.0)}),
+    ]
+
+
 def model_request(case):
     g = case["grid"]
     nax = len(g["shape"])
@@ -274,7 +312,7 @@ def run(ctx):
     rng = ctx.rng
     n = ctx.budget(400, 2000)
     batch = LeanBatch(ctx.workdir)
-    cases = [gen_case(rng, singular=(i % 4 == 3)) for i in range(n)]
+    cases = edge_cases() + [gen_case(rng, singular=(i % 4 == 3)) for i in range(n)]
     reqs = [batch.add("c18.matrix", model_request(c)) for c in cases]
     answers = batch.run()
     res = run_many("harness.c18", "real_case", [(c, rng.randint(0, 10 ** 6)) for c in cases],
@@ -285,6 +323,8 @@ def run(ctx):
         kinds = sorted({s["kind"] for s in c["sides"].values()})
         key = {"grid": g, "spec": repr(c["spec"])}
         ctx.count(key, nontrivial=True, leg="matrix")
+        if c.get("edge"):
+            ctx.hist("stratum", "edge")
         ctx.hist("class", f"{cls}/{len(g['shape'])}d/{'hole' if cls != 'cart' and g['bounds'][0][0] else 'full'}")
         for k in kinds:
             ctx.hist("bc-kind", k)
